@@ -312,6 +312,5 @@ def run(ctx):
                     ctx.diff(pcases[off], {1: "set of pruned edges", 2: "epochs_per_sample"}.get(code, "?"))
     finally:
         U.optimize_layout_euclidean = orig
-    ctx.partial.append("C07_count (visit count = floor((N-1)/p)) is proved for the isolated clock model `visits`; its identity with the clock update inside edge_step is by inspection of the shared expression")
     ctx.partial.append("optimize_layout_generic and the parametric edge replication are not yet modelled")
     return ctx.finish(RULE, assumptions=["float32 kernel arithmetic / fastmath observed with tolerance; parallel=True kernel not covered (C06 covers its selection)"])
